@@ -207,12 +207,124 @@ package ast
 // it is applied to (each option closure in this package is verified against the frame).
 //@ functype TypeOption
 //@   property C04
+//@   requires def != nil
 //@   modifies def.Nullable, def.Default, def.Hints, def.PassesTrail, def.PassesTrail[len(def.PassesTrail)], def.Scalar.Value, def.Disjunction.Discriminator, def.Disjunction.DiscriminatorMapping
+//@   ensures  trail: base(def.PassesTrail) == old(base(def.PassesTrail)) || fresh(def.PassesTrail)
 //
 //@ functype StructFieldOption
 //@   property C04
+//@   requires field != nil
 //@   modifies field.Required, field.Comments, field.PassesTrail, field.PassesTrail[len(field.PassesTrail)]
+//@   ensures  trail: base(field.PassesTrail) == old(base(field.PassesTrail)) || fresh(field.PassesTrail)
 //
 //@ functype AssignmentOpt
 //@   property C04
+//@   requires assignment != nil
 //@   modifies assignment.Method, assignment.Constraints
+//
+// Constructors establish the kind/payload invariant of ast.Type (IR well-formedness).
+//@ func NewScalar
+//@   property C04
+//@   modifies nothing
+//@   loop 0:
+//@     invariant trail: base(def.PassesTrail) == 0 || fresh(def.PassesTrail)
+//@   ensures  kind: result.Kind == KindScalar && result.Scalar != nil && fresh(result.Scalar)
+//@   ensures  scalarkind: result.Scalar.ScalarKind == kind
+//
+//@ func NewRef
+//@   property C04
+//@   modifies nothing
+//@   loop 0:
+//@     invariant trail: base(def.PassesTrail) == 0 || fresh(def.PassesTrail)
+//@   ensures  kind: result.Kind == KindRef && result.Ref != nil && fresh(result.Ref)
+//@   ensures  target: result.Ref.ReferredPkg == referredPkg && result.Ref.ReferredType == referredTypeName
+//
+//@ func NewConstantReferenceType
+//@   property C04
+//@   modifies nothing
+//@   loop 0:
+//@     invariant trail: base(def.PassesTrail) == 0 || fresh(def.PassesTrail)
+//@   ensures  kind: result.Kind == KindConstantRef && result.ConstantReference != nil && fresh(result.ConstantReference)
+//@   ensures  target: result.ConstantReference.ReferredPkg == referredPkg && result.ConstantReference.ReferredType == referredTypeName && result.ConstantReference.ReferenceValue == value
+//
+//@ func NewArray
+//@   property C04
+//@   modifies nothing
+//@   loop 0:
+//@     invariant trail: base(def.PassesTrail) == 0 || fresh(def.PassesTrail)
+//@   ensures  kind: result.Kind == KindArray && result.Array != nil && fresh(result.Array)
+//@   ensures  elem: result.Array.ValueType == valueType
+//
+//@ func NewMap
+//@   property C04
+//@   modifies nothing
+//@   loop 0:
+//@     invariant trail: base(def.PassesTrail) == 0 || fresh(def.PassesTrail)
+//@   ensures  kind: result.Kind == KindMap && result.Map != nil && fresh(result.Map)
+//@   ensures  elems: result.Map.IndexType == indexType && result.Map.ValueType == valueType
+//
+//@ func NewEnum
+//@   property C04
+//@   modifies nothing
+//@   loop 0:
+//@     invariant trail: base(def.PassesTrail) == 0 || fresh(def.PassesTrail)
+//@   ensures  kind: result.Kind == KindEnum && result.Enum != nil && fresh(result.Enum)
+//@   ensures  values: result.Enum.Values == values
+//
+//@ func NewDisjunction
+//@   property C04
+//@   modifies nothing
+//@   loop 0:
+//@     invariant trail: base(def.PassesTrail) == 0 || fresh(def.PassesTrail)
+//@   ensures  kind: result.Kind == KindDisjunction && result.Disjunction != nil && fresh(result.Disjunction)
+//@   ensures  branches: result.Disjunction.Branches == branches
+//
+//@ func NewStruct
+//@   property C04
+//@   modifies nothing
+//@   ensures  kind: result.Kind == KindStruct && result.Struct != nil && fresh(result.Struct)
+//@   ensures  fields: result.Struct.Fields == fields
+//
+//@ func NewIntersection
+//@   property C04
+//@   modifies nothing
+//@   ensures  kind: result.Kind == KindIntersection && result.Intersection != nil && fresh(result.Intersection)
+//@   ensures  branches: result.Intersection.Branches == branches
+//
+//@ func NewComposableSlot
+//@   property C04
+//@   modifies nothing
+//@   ensures  kind: result.Kind == KindComposableSlot && result.ComposableSlot != nil && fresh(result.ComposableSlot)
+//@   ensures  variant: result.ComposableSlot.Variant == variant
+//
+//@ func String
+//@   property C04
+//@   modifies nothing
+//@   ensures  kind: result.Kind == KindScalar && result.Scalar != nil && fresh(result.Scalar) && result.Scalar.ScalarKind == KindString
+//
+//@ func Bool
+//@   property C04
+//@   modifies nothing
+//@   ensures  kind: result.Kind == KindScalar && result.Scalar != nil && fresh(result.Scalar) && result.Scalar.ScalarKind == KindBool
+//
+//@ func Bytes
+//@   property C04
+//@   modifies nothing
+//@   ensures  kind: result.Kind == KindScalar && result.Scalar != nil && fresh(result.Scalar) && result.Scalar.ScalarKind == KindBytes
+//
+//@ func Any
+//@   property C04
+//@   modifies nothing
+//@   ensures  kind: result.Kind == KindScalar && result.Scalar != nil && fresh(result.Scalar) && result.Scalar.ScalarKind == KindAny
+//
+//@ func Null
+//@   property C04
+//@   modifies nothing
+//@   ensures  kind: result.Kind == KindScalar && result.Scalar != nil && fresh(result.Scalar) && result.Scalar.ScalarKind == KindNull
+//
+//@ func NewStructField
+//@   property C04
+//@   modifies nothing
+//@   ensures  result.Name == name && result.Type == fieldType
+//@   loop 0:
+//@     invariant trail: base(field.PassesTrail) == 0 || fresh(field.PassesTrail)
